@@ -231,9 +231,13 @@ class _FixedPolicy(_pythia.Policy):
     return _pythia.SuggestDecision([vz.TrialSuggestion({'x': 0.75}) for _ in range(request.count)])
 
   def early_stop(self, request):
-    return _pythia.EarlyStopDecisions()
+    if _STOP[0] is None:
+      return _pythia.EarlyStopDecisions()
+    return _pythia.EarlyStopDecisions([_pythia.EarlyStopDecision(id=i, reason='fixed', should_stop=_STOP[0])
+                                       for i in (request.trial_ids or [1])])
 
 
+_STOP = [None]        # None: no decisions; True / False: the fixed answer of the early-stopping algorithm
 _FAIL = [None]
 _FACTORY_FAIL = [None]
 
@@ -370,3 +374,33 @@ def endpoint_switch(first: int, second: int) -> bool:
       env.server_endpoint = saved
   reach('endpoint_switch')
   return finish(ok, (first, second))
+
+
+def early_stop_agree(stop: bool, repeat: int, t1: int) -> bool:
+  """
+  pre: 1 <= repeat <= 3 and 1 <= t1 <= 2
+  post: _
+  """
+  stop, repeat, t1 = cbool(stop), conc(repeat, 1, 3), conc(t1, 1, 2)
+  with NoTracing():
+    # a DETERMINISTIC early-stopping algorithm (always the same answer): then the answer is not advisory noise, and a client
+    # asking repeatedly (the later questions are answered from the stored decision) sees the same in every deployment
+    _STOP[0] = stop
+    owner = 'e%d_%d' % (os.getpid(), next(_COUNTER))
+    outs = []
+    try:
+      for name, service, ds in _custom_deployments():
+        study = _study(service, ds, owner, [0, ACTIVE, STOPPING][t1], 0, 1)
+        trial = study.get_trial(1)
+        answers = []
+        for _ in range(repeat):
+          try:
+            answers.append(_bounded(trial.check_early_stopping))
+          except Exception as e:  # noqa
+            answers.append(type(e).__name__)
+        outs.append((answers, _trial_obs(trial.materialize())))
+    finally:
+      _STOP[0] = None
+    ok = outs[0] == outs[1] == outs[2] and all(a == stop for a in outs[0][0])
+  reach('early_stop_agree')
+  return finish(ok, (stop, repeat, t1), obs=None if ok else outs)
